@@ -9,12 +9,16 @@ import P2sh.Driver.VmDrv
 import P2sh.Driver.SymtabDrv
 import P2sh.Driver.CliDrv
 import P2sh.Driver.ReplDrv
+import P2sh.Driver.FilterDrv
+import P2sh.Driver.CoreDrv
 open P2sh.Driver
 
 def dispatch (line : String) : String :=
   if line.startsWith "eval " then LangDrv.runEval line else
   if line.startsWith "vmrun " then VmDrv.run line else
   if line.startsWith "repl " then ReplDrv.run line else
+  if line.startsWith "filter " then FilterDrv.run line else
+  if line.startsWith "core " then CoreDrv.run line else
   match words line with
   | [] => "bad-op"
   | op :: args =>
